@@ -171,6 +171,15 @@ impl Backend for Rasn {
             let module = module_ref.borrow();
             self.tagging_environment = module.tagging_environment;
             self.extensibility_environment = module.extensibility_environment;
+            #[cfg(rasn_verif)]
+            crate::verif::emit("enter_module", || {
+                format!(
+                    "\"backend\":\"rasn\",\"module\":{},\"tagging\":\"{:?}\",\"extensibility\":\"{:?}\"",
+                    crate::verif::s(&module.name),
+                    self.tagging_environment,
+                    self.extensibility_environment
+                )
+            });
             let name = self.to_rust_snake_case(&module.name);
             let custom_imports = self
                 .config
@@ -209,12 +218,26 @@ impl Backend for Rasn {
             });
             let (pdus, warnings): (Vec<TokenStream>, Vec<CompilerError>) =
                 tlds.into_iter().fold((vec![], vec![]), |mut acc, tld| {
+                    #[cfg(rasn_verif)]
+                    let _verif_name = tld.name().clone();
                     match self.generate_tld(tld) {
                         Ok(s) => {
+                            #[cfg(rasn_verif)]
+                            crate::verif::emit("gen", || {
+                                format!(
+                                    "\"name\":{},\"outcome\":\"{}\"",
+                                    crate::verif::s(&_verif_name),
+                                    if s.is_empty() { "empty" } else { "item" }
+                                )
+                            });
                             acc.0.push(s);
                             acc
                         }
                         Err(e) => {
+                            #[cfg(rasn_verif)]
+                            crate::verif::emit("gen", || {
+                                format!("\"name\":{},\"outcome\":\"warning\"", crate::verif::s(&_verif_name))
+                            });
                             acc.1.push(e.into());
                             acc
                         }
